@@ -83,7 +83,7 @@ theorem mainStep_inv2 {c : Ctl.State (Load.State τ) τ} {k : Nat} {w w' : Wk τ
   | collect =>
     simp only [hph] at hm
     cases p with
-    | collect errs garbage =>
+    | collect errs garbage intr sf0 =>
       simp only at hm
       split at hm
       · simp only [Option.some.injEq] at hm
